@@ -152,6 +152,27 @@ def _filter_is_positive(e):
     return False
 
 
+def _is_path_uuid(ctx, f, name):
+    """Every definition of name is util.wsgi_path_item(req.environ,
+    'consumer_uuid') or a normalisation of name itself."""
+    defs = [n for n in own_nodes(f.node) if isinstance(n, ast.Assign)
+            and any(isinstance(t, ast.Name) and t.id == name
+                    for t in n.targets)]
+    base = 0
+    for d in defs:
+        v = d.value
+        if isinstance(v, ast.Call) and 'placement.util:wsgi_path_item' in \
+                C.call_name(ctx, f, v) and len(v.args) > 1 and isinstance(
+                    v.args[1], ast.Constant) and \
+                v.args[1].value == 'consumer_uuid':
+            base += 1
+        elif name in C.names_in(v):
+            continue
+        else:
+            return False
+    return base >= 1
+
+
 def r124(ctx, R):
     prog = ctx.prog
     n = 0
@@ -223,7 +244,10 @@ def r124(ctx, R):
                         if isinstance(st, ast.Assign):
                             names |= {x.id for x in ast.walk(st.targets[0])
                                       if isinstance(x, ast.Name)}
-                    names.add('consumer_uuid')
+                        # the uuid the consumer was acquired for
+                        names |= {x.id for x in a.args
+                                  if isinstance(x, ast.Name)
+                                  and _is_path_uuid(ctx, impl, x.id)}
                     argn = C.names_in(arg) if arg is not None else set()
                     ifs = C.guarding_ifs(C.stmt_of(dc[0]), c.node)
                     cond_ok = all(isinstance(i.test, ast.Name)
